@@ -10,29 +10,53 @@ open C12 Sy C07
 
 /-! ### `Thread::set_unparked` -/
 
-theorem setUnparked_blocked {t : Thread} (h : t.state = .blocked) :
-    t.setUnparked = { t with state := .runnable false } := by
-  simp [Thread.setUnparked, Thread.isBlocked, Thread.setRunnable, h]
+/-- a thread blocked in `park` is woken: `runnable`, no longer `parked`; the token field is not
+touched -/
+theorem setUnparked_parked {t : Thread} (h : t.parked = true) :
+    t.setUnparked = { t with state := .runnable, parked := false } := by
+  simp [Thread.setUnparked, Thread.setRunnable, h]
 
-theorem setUnparked_yield {t : Thread} (h : t.state = .yield) :
-    t.setUnparked = { t with state := .runnable false } := by
-  simp [Thread.setUnparked, Thread.isBlocked, Thread.isYield, Thread.setRunnable, h]
+/-- any other live thread — running, yielded, blocked on a lock / join / receive / notify-wait — keeps
+its state and stores the token, whether or not it already had one -/
+theorem setUnparked_live {t : Thread} (hp : t.parked = false) (h : t.state ≠ .terminated) :
+    t.setUnparked = { t with token := true } := by
+  have : t.isTerminated = false := by
+    unfold Thread.isTerminated
+    cases hs : t.state <;> first | rfl | exact absurd hs h
+  simp [Thread.setUnparked, hp, this]
 
-/-- a runnable thread stores the token, whether or not it already had one -/
-theorem setUnparked_runnable {t : Thread} {b : Bool} (h : t.state = .runnable b) :
-    t.setUnparked = { t with state := .runnable true } := by
-  simp [Thread.setUnparked, Thread.isBlocked, Thread.isYield, Thread.isRunnable, h]
+theorem setUnparked_terminated {t : Thread} (hp : t.parked = false) (h : t.state = .terminated) :
+    t.setUnparked = t := by
+  simp [Thread.setUnparked, Thread.isTerminated, hp, h]
 
-theorem setUnparked_terminated {t : Thread} (h : t.state = .terminated) : t.setUnparked = t := by
-  simp [Thread.setUnparked, Thread.isBlocked, Thread.isYield, Thread.isRunnable, h]
-
-/-- `set_unparked` touches nothing but the state -/
+/-- `set_unparked` touches nothing but `state`, `parked` and `token` -/
 theorem setUnparked_fields (t : Thread) :
-    t.setUnparked = { t with state := t.setUnparked.state } := by
+    t.setUnparked = { t with state := t.setUnparked.state, parked := t.setUnparked.parked,
+                             token := t.setUnparked.token } := by
   unfold Thread.setUnparked
   split
   · rfl
   · split <;> rfl
+
+/-- `set_unparked` changes the state only of a thread blocked in `park` -/
+theorem setUnparked_state_ne {t : Thread} (h : t.setUnparked.state ≠ t.state) : t.parked = true := by
+  cases hp : t.parked with
+  | true => rfl
+  | false =>
+    exfalso; apply h
+    unfold Thread.setUnparked
+    rw [hp]
+    simp only [Bool.false_eq_true, if_false]
+    split <;> rfl
+
+/-- a thread that is not parked keeps its state -/
+theorem setUnparked_state_of_not_parked {t : Thread} (hp : t.parked = false) :
+    t.setUnparked.state = t.state ∧ t.setUnparked.parked = false ∧
+    t.setUnparked.token = (t.token || !t.isTerminated) := by
+  unfold Thread.setUnparked
+  rw [hp]
+  simp only [Bool.false_eq_true, if_false]
+  cases ht : t.isTerminated <;> simp [hp]
 
 /-- `Thread::unpark`: the target's causality is joined with the unparker's -/
 theorem unpark_causality (t u : Thread) : (t.unpark u).causality = t.causality.join u.causality := by
@@ -40,7 +64,21 @@ theorem unpark_causality (t u : Thread) : (t.unpark u).causality = t.causality.j
   rw [setUnparked_fields]
 
 theorem unpark_state (t u : Thread) : (t.unpark u).state = t.setUnparked.state := by
-  unfold Thread.unpark Thread.setUnparked Thread.isBlocked Thread.isYield Thread.isRunnable
+  unfold Thread.unpark Thread.setUnparked Thread.isTerminated
+  simp only
+  split
+  · rfl
+  · split <;> rfl
+
+theorem unpark_parked (t u : Thread) : (t.unpark u).parked = t.setUnparked.parked := by
+  unfold Thread.unpark Thread.setUnparked Thread.isTerminated
+  simp only
+  split
+  · rfl
+  · split <;> rfl
+
+theorem unpark_token (t u : Thread) : (t.unpark u).token = t.setUnparked.token := by
+  unfold Thread.unpark Thread.setUnparked Thread.isTerminated
   simp only
   split
   · rfl
@@ -48,25 +86,25 @@ theorem unpark_state (t u : Thread) : (t.unpark u).state = t.setUnparked.state :
 
 /-! ### `rt::park` -/
 
-/-- a stored token is consumed: the state goes back to `runnable false`, `schedule` is NOT called
-(no branch point: path, objects and all other threads are unchanged) -/
-theorem parkNow_token {w : World} (h : w.ths.activeT.state = .runnable true) :
-    w.parkNow = .ok (w.setThs (w.ths.modifyActive Thread.setRunnable)) := by
+/-- a stored token is consumed: `token := false`, nothing else of the thread changes, `schedule` is NOT
+called (no branch point: path, objects and all other threads are unchanged) -/
+theorem parkNow_token {w : World} (h : w.ths.activeT.token = true) :
+    w.parkNow = .ok (w.setThs (w.ths.modifyActive fun th => { th with token := false })) := by
   unfold World.parkNow
   rw [h]
   rfl
 
-/-- no token: the thread is blocked, its pending operation cleared, and the scheduler runs -/
-theorem parkNow_block {w : World} (h : w.ths.activeT.state ≠ .runnable true) :
+/-- no token: the thread is blocked in `park` (`set_parked`), its pending operation cleared, and the
+scheduler runs -/
+theorem parkNow_block {w : World} (h : w.ths.activeT.token = false) :
     w.parkNow = (do
       let (e, _) ← ({ w.exec with threads :=
-          (w.ths.modifyActive fun th => { th.setBlocked with operation := none }) }).schedule
+          (w.ths.modifyActive fun th => { th.setParked with operation := none }) }).schedule
             w.panicking
       pure { w with exec := e }) := by
   unfold World.parkNow
-  split
-  · next h' => exact absurd h' h
-  · rfl
+  rw [h]
+  rfl
 
 /-! ### `Set::unpark` -/
 
@@ -97,6 +135,21 @@ theorem unpark_other_get {s : Threads} {id : Nat} (h : id ≠ s.activeId)
   refine ⟨get_modify_self _ _ _ hin, ?_, fun j hj => get_modify_ne _ _ _ _ hj⟩
   rw [get_modify_self _ _ _ hin, unpark_causality]
   exact VV.le_join_right _ _
+
+/-- the target of `Set::unpark` (whether it is the active thread or another one): its `state`, `parked`,
+`token` follow the `set_unparked` table -/
+theorem unpark_get_fields (s : Threads) (id : Nat) (hin : id < s.threads.length) :
+    ((s.unpark id).get id).state = (s.get id).setUnparked.state ∧
+    ((s.unpark id).get id).parked = (s.get id).setUnparked.parked ∧
+    ((s.unpark id).get id).token = (s.get id).setUnparked.token := by
+  by_cases h : id = s.activeId
+  · subst h
+    rw [unpark_self]
+    unfold Threads.modifyActive
+    rw [get_modify_self _ _ _ hin]
+    exact ⟨rfl, rfl, rfl⟩
+  · rw [(unpark_other_get h hin).1]
+    exact ⟨unpark_state _ _, unpark_parked _ _, unpark_token _ _⟩
 
 end C08
 end LoomVerif
